@@ -20,6 +20,7 @@ type fnNames struct {
 	Params  []string `json:"params"`
 	Results []string `json:"results"`
 	Locals  []string `json:"locals"`
+	Loops   int      `json:"loops"`
 }
 
 func namesOf(fn *ssa.Function) fnNames {
@@ -39,6 +40,7 @@ func namesOf(fn *ssa.Function) fnNames {
 		seen[l.Comment] = true
 		n.Locals = append(n.Locals, l.Comment)
 	}
+	n.Loops = -1
 	return n
 }
 
@@ -48,7 +50,9 @@ func (p *Program) writeNames() {
 	out := map[string]fnNames{}
 	for k := range p.contracts {
 		if fn := p.funcs[k]; fn != nil {
-			out[k] = namesOf(fn)
+			nm := namesOf(fn)
+			nm.Loops = len(p.loopsOf(fn))
+			out[k] = nm
 		}
 	}
 	data, _ := json.MarshalIndent(out, "", " ")
@@ -66,11 +70,13 @@ func (p *Program) loadRenames() {
 	if json.Unmarshal(data, &rec) != nil {
 		return
 	}
+	p.baseLoops = map[string]int{}
 	for k, old := range rec {
 		fn := p.funcs[k]
 		if fn == nil {
 			continue
 		}
+		p.baseLoops[k] = old.Loops
 		cur := namesOf(fn)
 		m := map[string]string{}
 		have := map[string]bool{}
